@@ -262,13 +262,14 @@ LOCK_ASSUME = [
 
 PROPS['C13'] = {
     'functions': sorted(set(LOCK_VM + CLASSES + ERRORS)),
-    'select': [r'^lemma/C13/', r'^templates/', r'^functions\.(OP_CHECK_SIG|OP_CHECK_SIG_STACK|OP_IF_ELSE|OP_EVAL)/refine'],
+    'select': [r'^lemma/C13/', r'^templates/', r'^bounded/C13/',
+               r'^functions\.(OP_CHECK_SIG|OP_CHECK_SIG_STACK|OP_IF_ELSE|OP_EVAL)/refine'],
     'trusted_base': TRUSTED_COMMON + ['E4: Ed25519 verification is an uninterpreted predicate'],
     'assumptions': ASSUME_COMMON + LOCK_ASSUME + [
         'multisig lock: the instruction-level lemma is C03 (m, n <= 3 / 4); graftap: key path = taproot key path lemma, '
         'script path = taproot script path lemma composed with the graftroot surrogate lemma (composition argued in '
         'DESIGN.md 9, not machine-checked)'],
-    'extra': ['props.lemmas_locks:c13_locks'],
+    'extra': ['props.lemmas_locks:c13_locks', 'props.bounded:c13_builders'],
     'explanation': 'for ALL keys, flag bytes, sigfields and witness bytes: run_auth_scripts([witness, lock]) executed from '
                    'the real VM bodies on the builders\' byte templates accepts only if (and, absent resource failures, '
                    'if) the unlocking condition of the property holds: single-sig (both layouts), scripthash, graftroot '
